@@ -494,10 +494,10 @@ def dur_class(r):
     return ('-' if r['neg'] else '+') + unit
 
 
-def features(cfg, binding, spelling, action, args, src, dst, out, diff):
+def features(cfg, binding, spelling, action, args, src, dst, out, diff, style='lit'):
     isv = src['st'] in ('val', 'raw')
     timed = isv and src['k'] != 'date'
-    f = dict(op=action, binding=binding, spelling=spelling, xsd=cfg['xsd'], kind=src.get('k'),
+    f = dict(op=action, binding=binding, spelling=spelling, style=style, xsd=cfg['xsd'], kind=src.get('k'),
              implicit_tz='utc' if cfg['implicit'] == 0 else 'other', outcome=out, diff=diff,
              era_src=era(cfg, src), leap_src=leap(cfg, src), md_src=md(src), tz_src=tz_class(src) if isv else '-',
              time_src=('-' if not timed else 'h24' if src['h'] == 24 else
@@ -604,8 +604,10 @@ CFGS: dict = {}
 def replay_edge(cfg, src, action, args, dst, pred, fails, stats):
     """returns the number of evaluations"""
     n = 0
-    # --- Python API ---------------------------------------------------------------------
-    if action == 'Construct':
+    # --- Python API (it has no dynamic context: only the models whose implicit timezone is UTC) ------
+    if cfg['implicit'] != 0:
+        pass
+    elif action == 'Construct':
         obs = py_outcome(lambda: py_construct(src, cfg), ctor=True)
         n += 1
         bad = judge(expect(dst), obs)
@@ -668,9 +670,8 @@ def replay_edge(cfg, src, action, args, dst, pred, fails, stats):
             n += 1
             bad = judge_any(exp, obs)
             if bad:
-                sp = spelling if style == 'lit' else style + ':' + spelling
-                fails.append((features(cfg, 'xp', sp, action, args, src, dst, bad[0], bad[1]),
-                              dict(model=cfg['name'], binding='xp', expr=expr, xsd=cfg['xsd'], timezone=tz, spelling=sp),
+                fails.append((features(cfg, 'xp', spelling, action, args, src, dst, bad[0], bad[1], style),
+                              dict(model=cfg['name'], binding='xp', expr=expr, xsd=cfg['xsd'], timezone=tz, spelling=spelling),
                               exp, obs, expr))
     return n
 
